@@ -8,6 +8,9 @@ R11.1 carrier matrix [proof]: for every accepted context (all DF, all type codes
       the frame's format may carry (table below, one reason per entry); a surface squitter blanks the altitude;
 R11.2 latest value wins [proof]: no stored value depends on the previous value of the same parameter (only the listed
       cross-field derivations do: GNSS altitude from altitude, position from the CPR slots);
+R11.4 carried parameters are written [proof]: in every context, each parameter the frame's format carries (property
+      text) is among the fields the update can store - a format silently losing a parameter under some option or
+      row state (e.g. DF20 altitude only for capable transponders) is reported;
 R11.3 idempotence [proof]: applying the same frame again to the row it just updated leaves every field unchanged
       (time stamps excepted).
 """
@@ -79,6 +82,44 @@ def allowed(r):
     return a
 
 
+def carried(r):
+    """parameters the frame's format DOES carry (from the property text): the update must be able to write them"""
+    df = r.df
+    tags = r.ctx["tags"]
+    tc = stv = None
+    for t in tags:
+        if t.startswith("tc") and t[2:].isdigit():
+            tc = int(t[2:])
+        if t.startswith("st") and t[2:].isdigit():
+            stv = int(t[2:])
+    if "V" in tags:
+        tc = 19
+    if "P" in tags and tc is None:
+        tc = 11
+    m = set()
+    if df in (4, 20):
+        m |= {"altitude"}
+    if df in (5, 21):
+        m |= {"squawk"}
+    if df == 11:
+        m |= {"capability"}
+    if df == 17 and tc is not None:
+        if 1 <= tc <= 4:
+            m |= {"ais"}
+        elif 5 <= tc <= 8:
+            m |= {"altitude", "cpr_lat", "cpr_lon"}
+        elif 9 <= tc <= 18:
+            m |= {"altitude", "surveillance_status", "cpr_lat", "cpr_lon"}
+        elif tc == 19:
+            if stv in (1, 2):
+                m |= {"grspeed", "track", "vrate"}
+            elif stv in (3, 4):
+                m |= {"heading", "vrate"}
+        elif tc == 31:
+            m |= {"adsb_version"}
+    return m
+
+
 def run(facts, rep, tier):
     rep.explanation = (
         "E2 abstract interpretation with a fully symbolic pre-state row: after the update, a field whose abstract value is "
@@ -90,9 +131,10 @@ def run(facts, rep, tier):
     rep.rule("R11.1", "frames change only the parameters their format carries", "P")
     rep.rule("R11.2", "a new value never depends on the old value of the same parameter", "P")
     rep.rule("R11.3", "re-applying the same frame changes nothing", "P")
+    rep.rule("R11.4", "every parameter a format carries is written by frames of that format (in every option/state context)", "P")
     out = k2_results(facts, tier)
     results = out["results"]
-    n1 = n2 = n3 = 0
+    n1 = n2 = n3 = n4 = 0
     for r in results:
         if not accepted(r) or r.df is None or r.post_update is None:
             continue
@@ -108,6 +150,15 @@ def run(facts, rep, tier):
                 rep.add(Finding("R11.1", "%s changed by a frame that does not carry it: DF%s%s" % (f, r.df, _tcs(r)),
                                 "context '%s': the row's %s changes (to %r) although this format does not carry that parameter"
                                 % (r.ctx["label"], f, r.post_update.fields.get(f)), None, {"context": r.ctx["label"]}))
+        # R11.4: the parameters the format carries can be written at all in this context
+        for f in sorted(carried(r)):
+            n4 += 1
+            ok = f in ch
+            rep.oblige(ok, ("carried", r.ctx["label"], f))
+            if not ok:
+                rep.add(Finding("R11.4", "%s is never written from DF%s%s frames (%s)" % (f, r.df, _tcs(r), _cfg(r)),
+                                "context '%s': this format carries %s but no path of the update stores it: the display keeps showing an older value"
+                                % (r.ctx["label"], f), None, {"context": r.ctx["label"]}))
         # surface squitter blanks the altitude
         tcs = [int(t[2:]) for t in r.ctx["tags"] if t.startswith("tc") and t[2:].isdigit()]
         if r.df == 17 and tcs and 5 <= tcs[0] <= 8:
@@ -148,8 +199,14 @@ def run(facts, rep, tier):
     rep.instances("R11.1", n1, floor=150, what="accepted contexts")
     rep.instances("R11.2", n2, floor=500, what="stores")
     rep.instances("R11.3", n3, floor=60, what="contexts interpreted twice")
+    rep.instances("R11.4", n4, floor=300, what="(context, carried parameter) pairs")
     rep.extra["contexts"] = len(results)
     rep.assumptions += ["wall-clock ordering of frames is not decided", "time-stamp fields are excluded from the idempotence comparison"]
+
+
+def _cfg(r):
+    return "%s%s%s" % ("-U" if r.ctx.get("U") else "default path", " -R" if r.ctx.get("R") else "",
+                        "".join(" " + t for t in r.ctx["tags"] if t.startswith("ca") or t.startswith("no") or t in ("adv", "gate")))
 
 
 def _tcs(r):
